@@ -78,6 +78,23 @@ THEOREMS = [
     'C04.gen_c2pTable_eq_model', 'C04.gen_settingSites_eq_model', 'C04.gen_settingFamilies_eq_model',
     'C04.gen_multip_eq_model', 'C04.gen_c2pDefaults_eq_model', 'C04.gen_resolveCalls_eq_model',
     'C04.gen_resolveSetting_eq_model', 'C04.gen_familyGate_eq_model', 'C04.gen_pins_eq_model',
+    # round 6 (Proofs/C04_Ladder.lean + end of Proofs/C04.lean). the call as written: which multiplier arguments are
+    # refused and with which error, the first refused axis decides; supersize end to end
+    'C04.resolve_ok_iff', 'C04.resolve_spec', 'C04.resolve_error_iff', 'C04.resolveSizes_ok_iff', 'C04.resolveSizes_ok',
+    'C04.resolveSizes_first_error', 'C04.supersizeApi_ok', 'C04.supersizeApi_refuses_iff',
+    # the face-rounding ladder of rotate: one rung keeps exactly the half-open cell shifted by atol (= the exact filter of
+    # the shifted crystal), is the exact test at 0 and away from the faces; the loop returns the first rung with the
+    # expected count, fails only if every rung miscounts; rotate with its ladder = the exact model when the first rung
+    # sees no atom within its reach of a face
+    'C04.closeK_zero_rtol', 'C04.roundFaces_keep_iff', 'C04.ladderKeep_eq_shift', 'C04.ladderKeep_zero',
+    'C04.ladderKeep_away', 'C04.ladderFilter_eq_shift', 'C04.ladderLoop_first', 'C04.ladderLoop_skip',
+    'C04.ladderLoop_sound', 'C04.ladderLoop_none_iff', 'C04.rotateRaw_eq_sup', 'C04.rotateLadder_first_rung',
+    'C04.rotateLadder_first_rung_rat',
+    # the integer matrices of the conversions: mutually inverse up to multip, det = number of lattice sites, the sites =
+    # the primitive lattice points of the conventional cell; the conversions undo one another on the cell vectors
+    'C04.conv_tables_ok', 'C04.p2cTable_some_iff', 'C04.c2pUvws_t_none', 'C04.conv_uvws_inverse',
+    'C04.sites_are_lattice_points', 'C04.newVects_mul', 'C04.newVects_scal', 'C04.newVects_scaleCell',
+    'C04.scaleCell_scaleCell', 'C04.multip_pos', 'C04.conversions_undo_cell',
 ]
 PARTIAL = {
     'normalize_after_rotate': 'the final normalize step (rebuild the box LAMMPS-compatible, flip a left-handed cell, '
@@ -1924,6 +1941,115 @@ def correspond(ctx):
         sysm, fam, _ = gen_system(orng, am, fam_box=(box, fam), extra=near_face_atoms(orng, U) if it % 3 == 0 else [],
                                   far=it % 4 == 1)
         _corr_rotate(ctx, am, sysm, fam, U, _det3(U), 'rotate-oriented', U, 'int-list')
+    # --- round 6: the call as written (multiplier arguments), the ladder with the caller's `tol`, the vectors the
+    #     conversions hand to rotate (own random stream) ---
+    xrng = random.Random(ctx.seed * 32452843 + 11)
+    _corr_sizeargs(ctx, xrng, am)
+    _corr_convuvws(ctx, am)
+    for it in range(ctx.n(40, 300)):
+        U, d = gen_U(xrng, maxdet=5)
+        sysm, fam, _ = gen_system(xrng, am, extra=near_face_atoms(xrng, U) if it % 4 != 3 else [], far=it % 4 == 1)
+        rungs = xrng.choice(USER_LADDERS)
+        vals = [float(Fraction(r)) for r in rungs]
+        form = xrng.choice(['list', 'tuple', 'array', 'float'] if len(vals) == 1 else ['list', 'tuple', 'array'])
+        tol = {'list': vals, 'tuple': tuple(vals), 'array': np.array(vals), 'float': vals[0]}[form]
+        _corr_rotate(ctx, am, sysm, fam + '+tol-' + form, U, d, 'rotate-ladder', U, 'int-list', tol=tol, rungs=rungs)
+
+
+# user ladders: rungs that are no distance the generators place an atom at (DELTAS, LADDER, origin offsets and their sums)
+USER_LADDERS = [['29/1000000'], ['23/100000', '19/10000000'], ['61/1000000', '29/100000000', '11/1000000000'],
+                ['59/1000000'], ['77/1000000', '33/100000000'], ['1/10000', '1/100000', '1/1000000', '1/10000000'],
+                ['13/10000', '7/1000000']]
+
+
+def _size_token(a):
+    """a multiplier argument as the model sees it: integer, pair of integers, anything else."""
+    np = _np()
+    isint = lambda v: isinstance(v, (int, np.integer)) and not isinstance(v, (bool, np.bool_))
+    if isint(a):
+        return f'i{int(a)}'
+    if isinstance(a, tuple) and len(a) == 2 and isint(a[0]) and isint(a[1]):
+        return f'p{int(a[0])},{int(a[1])}'
+    return 'o'
+
+
+def _corr_sizeargs(ctx, rng, am):
+    """System.supersize(a, b, c) with accepted and refused arguments in every slot against `resolveSizes` (which
+    arguments are refused, with which exception class - the first refused axis decides - and otherwise the placement)."""
+    np = _np()
+    good = [1, 2, -1, -3, (0, 2), (-1, 0), (-1, 1), (-2, 1), np.int64(2), np.int32(-2), (np.int64(-1), 1), (0, np.int16(3))]
+    bad = [0, np.int64(0), (0, 0), (1, 2), (-2, -1), (1, -1), 1.0, 2.5, (0.0, 1), (0, 1.0), [0, 1], (0, 1, 2), (1,), (),
+           None, '2', np.float64(2.0), (np.int64(0), np.int64(0)), (2, 0)]
+    for it in range(ctx.n(90, 500)):
+        args = [rng.choice(good) for _ in range(3)]
+        for slot in rng.sample(range(3), rng.choice([0, 1, 1, 2, 3])):
+            args[slot] = rng.choice(bad)
+        toks = [_size_token(a) for a in args]
+        line = 'sizeargs ' + ' '.join(toks)
+        out = ctx.driver.ask(line)
+        ctx.stats.case('sizeargs', line, nontrivial=True, sample={'op': 'sizeargs', 'args': [repr(a) for a in args]})
+        sysm = am.System(atoms=am.Atoms(atype=[1], pos=[[0.25, 0.5, 0.125]]), box=am.Box(a=1.0, b=1.0, c=1.0))
+        try:
+            new = sysm.supersize(*args)
+            impl = ' '.join(str(int(round(x))) for k in range(3)
+                            for x in (new.box.origin[k], new.box.origin[k] + new.box.vects[k][k]))
+        except ValueError:
+            impl = 'err:value'
+        except TypeError:
+            impl = 'err:type'
+        except Exception as e:  # noqa - an observation
+            impl = 'raised ' + type(e).__name__
+        if impl != out:
+            ctx.disagree('supersize:arguments', f'supersize({", ".join(repr(a) for a in args)}) on the unit cube: implementation '
+                         f'{impl} (lo hi per axis), model {out}', {'op': 'sizeargs', 'args': [repr(a) for a in args]})
+
+
+def _corr_convuvws(ctx, am):
+    """the vectors conventional_to_primitive / primitive_to_conventional hand to System.rotate (captured by a spy in place
+    of rotate) against `c2pUvws` / `p2cUvws` / `multip`, for every setting, `t` and an unknown one."""
+    np = _np()
+
+    class _Stop(Exception):
+        pass
+    seen = []
+
+    def spy(self, uvws, *a, **k):
+        seen.append(np.array(uvws, dtype=float))
+        raise _Stop()
+    sysm = am.System(atoms=am.Atoms(atype=[1], pos=[[0.0, 0.0, 0.0]]), box=am.Box(a=3.0, b=3.0, c=3.0))
+    orig = am.System.rotate
+    for setting in ['p', 'i', 'f', 'a', 'b', 'c', 't1', 't2', 't', 'r', 'P', '']:
+        out = ctx.driver.ask('convuvws ' + (setting if setting else '_'))
+        ctx.stats.case('convuvws', 'convuvws ' + setting, nontrivial=True, sample={'op': 'convuvws', 'setting': setting})
+        parts = [x.strip() for x in out.split('|')]
+        got = []
+        am.System.rotate = spy
+        try:
+            for style, kw in (('conventional_to_primitive', {'check_basis': False}), ('primitive_to_conventional', {})):
+                del seen[:]
+                try:
+                    sysm.dump(style, setting=setting, **kw)
+                    got.append('returned')
+                except _Stop:
+                    m = seen[0]
+                    got.append(' '.join(str(int(x)) for x in np.rint(m).ravel())
+                               if m.shape == (3, 3) and np.abs(m - np.rint(m)).max() < 1e-12 else 'non-integer ' + str(m.tolist()))
+                except ValueError:
+                    got.append('x')
+                except Exception as e:  # noqa
+                    got.append('raised ' + type(e).__name__)
+        finally:
+            am.System.rotate = orig
+        if len(parts) != 3 or got != parts[1:]:
+            ctx.disagree('conversion:uvws', f'setting {setting!r}: vectors handed to rotate by c2p / p2c: {got}, model {parts[1:]}',
+                         {'op': 'convuvws', 'setting': setting})
+        elif got[0] != 'x':
+            # multip: the supercell is multip^3 / (lattice sites) primitive cells
+            det = round(float(np.linalg.det(np.array([int(x) for x in got[0].split()], dtype=float).reshape(3, 3))))
+            detc = round(float(np.linalg.det(np.array([int(x) for x in got[1].split()], dtype=float).reshape(3, 3))))
+            if det * detc != int(parts[0]) ** 3:
+                ctx.disagree('conversion:multip', f'setting {setting!r}: det {det} x {detc} != multip^3, multip = {parts[0]}',
+                             {'op': 'convuvws', 'setting': setting})
 
 
 def _unit_system(am):
@@ -2010,14 +2136,28 @@ def supersize_cleanup(np, V0, ns):
     return float(sum(abs(x) for x in want.ravel() if 1e-15 * big < abs(x) <= 2e-9 * big))
 
 
-def _corr_rotate(ctx, am, sysm, fam, U, d, kind, arg, form):
+DEFAULT_LADDER = ['1/10000', '1/100000', '1/1000000', '1/10000000']
+
+
+def _corr_rotate(ctx, am, sysm, fam, U, d, kind, arg, form, tol=None, rungs=None):
+    """`tol` / `rungs`: the `tol` argument handed to rotate and its rungs as exact decimal fractions; with `rungs` the
+    model runs WITH the tolerance ladder (driver op `rotatel`, Lean `rotateLadder`) - always for `rotate-outside`."""
     np = _np()
     spec = spec_of(sysm)
     ne = nextra(spec)
     bl, al = sys_line(sysm, spec)
     flat = np.asarray(arg, dtype=float).ravel()
-    line = f"rotatef {ne} {sysm.natoms} {bl} {len(flat)} {cm.frs(flat)} {al}"
+    if kind == 'rotate-outside' and rungs is None:
+        rungs = DEFAULT_LADDER
+    if rungs is not None:
+        line = (f"rotatel {ne} {sysm.natoms} {bl} {len(rungs)} {' '.join(rungs)} "
+                f"{' '.join(str(x) for r in U for x in r)} {al}")
+    else:
+        line = f"rotatef {ne} {sysm.natoms} {bl} {len(flat)} {cm.frs(flat)} {al}"
     out = ctx.driver.ask(line)
+    if out == 'err:filter':
+        out = 'err:value'       # "Filtering failed" is a ValueError as well
+    kw = {} if tol is None else {'tol': tol}
     pbc_in = [bool(x) for x in sysm.pbc]
     ctx.stats.case(kind, line + ' pbc ' + ''.join('p' if x else 'f' for x in pbc_in),
                    nontrivial=U != [[1, 0, 0], [0, 1, 0], [0, 0, 1]],
@@ -2030,10 +2170,14 @@ def _corr_rotate(ctx, am, sysm, fam, U, d, kind, arg, form):
     pk = ''.join('p' if x else 'f' for x in pbc_in)
     ctx.extra['pbc_settings'][pk] = ctx.extra['pbc_settings'].get(pk, 0) + 1
     rp = {'op': 'rotate', 'case': sysm._c04, 'U': U, 'uvws': np.asarray(arg, dtype=float).tolist(), 'form': form}
+    if tol is not None:
+        rp['tol'] = [float(Fraction(r)) for r in rungs]
 
     def on_face(rel):
-        # within the reach of the first rung of the tolerance ladder (1e-4) of a face of the new cell
-        return any(min(abs(float(x)), abs(float(x) - 1.0)) < 1.2e-4 for x in rel)
+        # the model runs the ladder itself: float and exact arithmetic can only differ about an image whose distance
+        # from a face of the new cell is a rung to within rounding (it is kept / dropped by noise)
+        edges = [float(Fraction(r)) for r in rungs]
+        return any(min(min(abs(float(x) + e), abs(float(x) - 1.0 + e)) for e in edges) < 1e-9 for x in rel)
 
     if kind == 'rotate-outside':
         # the whole-lattice translation of the supercell is rint(origin . inv(vects)): within rounding of a half-integer
@@ -2046,7 +2190,7 @@ def _corr_rotate(ctx, am, sysm, fam, U, d, kind, arg, form):
             return
 
     try:
-        new, T = sysm.rotate(arg, return_transform=True)
+        new, T = sysm.rotate(arg, return_transform=True, **kw)
     except ValueError as e:
         if not out.startswith('err:'):
             mbox, matoms = parse_result(out, ne)
